@@ -14,6 +14,9 @@
 Added after the second and third seeding rounds:
   faithful-copy     every value stored in a snapshot table is built from the provider's answer without lossy / re-ordering operations
   ids-followed      every id the capture learns from the provider is queued for capture or used as a table key
+Added after the fourth round:
+  builder-keeps-fields  a consuming builder method of SnapshotProvider (with_timeout) hands every field it was not asked to change
+                    over from `self` - the version sets added so far (and with them the id numbering) survive
 """
 from common import *
 import q, dim
@@ -47,6 +50,7 @@ def run(ctx):
         capture(ctx, crate, crs, tag)
         ctx.guard("faithful-copy" + tag, faithful_copy, ctx, crate, crs, tag)
         ctx.guard("ids-followed" + tag, ids_followed, ctx, crate, crs, tag)
+        ctx.guard("builder-keeps-fields" + tag, builder_keeps_fields, ctx, crate, tag)
         order(ctx, crate, crs, tag)
         union_order(ctx, crate, tag)
         provider_siblings(ctx, crate, crs, tag)
@@ -212,6 +216,37 @@ def faithful_copy(ctx, crate, crs, tag):
 
 
 ID_TYPES = ("SolvableId", "StringId", "VersionSetId", "NameId", "VersionSetUnionId")
+
+
+def builder_keeps_fields(ctx, crate, tag):
+    """`fn with_x(self, x) -> Self`: each field of the returned provider is the same field of `self`, or computed from an argument."""
+    R = "builder-keeps-fields" + tag
+    n = 0
+    for b in crate.bodies:
+        if not b.key.startswith(SPP) or b.kind not in ("Fn", "AssocFn"):
+            continue
+        sig = b.d.get("sig") or {}
+        ins = sig.get("inputs") or []
+        if not ins or not ins[0].startswith(SP) or not str(sig.get("output", "")).startswith(SP):
+            continue
+        a = crate.adts.get(SP)
+        names = [f["name"] for f in a["variants"][0]["fields"]]
+        n += 1
+        for i, j, s in b.assigns():
+            r = s["r"]
+            if r["k"] != "agg" or r.get("adt") != SP:
+                continue
+            for fi, o in enumerate(r["ops"]):
+                fname = (r["fields"][fi] if r.get("fields") else names[fi])
+                fname = names[int(fname)] if str(fname).isdigit() else fname
+                d = b.origin(o)
+                kept = d.get("k") == "arg" and d.get("l") == 1 and [e.get("n") for e in d.get("proj", []) if isinstance(e, dict)] == [fname]
+                lv = q.leaves(b, o, adt=True)
+                from_arg = any(x.startswith("arg:") and x != "arg:1" for x in lv)
+                ctx.ob(R, b.key, "field-kept-or-set-from-argument:%s" % fname, kept or from_arg, b.loc(),
+                       "`%s` of the returned provider is %s" % (fname, "self.%s" % fname if kept else "computed from the method's argument" if from_arg
+                                                                 else "neither self.%s nor computed from an argument (%s): what was added to the provider before this call is lost" % (fname, ", ".join(sorted(lv)) or "constant")))
+    ctx.floor(R, "consuming builder methods of SnapshotProvider", n, 1)
 
 
 def ids_followed(ctx, crate, crs, tag):
